@@ -19,7 +19,10 @@ Structural clauses:
   R6 Study.add_trial validates against the search space it just fetched from
      the service, on every path before the service call;
   R7 walking a space one parameter at a time validates every chosen value
-     (get_subspace_deepcopy validates on every path for the four value types).
+     (get_subspace_deepcopy validates on every path for the four value types);
+  R8 SearchSpace.add keeps a reference and rewrites the config's parent values,
+     so no config object is added to two subspaces (fresh object per innermost
+     loop iteration at every `.add(x)` site of the definition/conversion code).
 The biconditional over all assignments (values such as 1 == 1.0 == True) is
 not decided.
 """
@@ -63,6 +66,7 @@ def run(ctx) -> None:
   ctx.rule('R5', 'feasibility dispatch total with matching accessors; exact handler; exact integrality test', 4)
   ctx.rule('R6', 'Study.add_trial validates against the freshly fetched search space before the service call', 1)
   ctx.rule('R7', 'sequential walk validates every chosen value', 2)
+  ctx.rule('R8', 'one ParameterConfig object per subspace: `.add(x)` inside a loop gets a new object per innermost iteration', 4)
   mod = ctx.index.need_module(PCMOD)
   pc = mod.classes.get('ParameterConfig')
   ss = mod.classes.get('SearchSpace')
@@ -75,6 +79,68 @@ def run(ctx) -> None:
   r5_feasible(ctx, pc)
   r6_add_trial(ctx)
   r7_walk(ctx, pc)
+  r8_unique_config_objects(ctx, ss)
+
+
+# ----------------------------------------------------------------------- R8
+_R8_MODULES = ['vizier._src.pyvizier.shared.parameter_config', 'vizier._src.pyvizier.shared.parameter_iterators',
+               'vizier._src.pyvizier.oss.proto_converters']
+
+
+def r8_unique_config_objects(ctx, ss) -> None:
+  """SearchSpace.add stores a *reference* and rewrites its `_matching_parent_values`.
+
+  So one ParameterConfig object must never be added to two subspaces: inside a
+  loop, the argument of `.add(x)` has to be a new object per innermost iteration
+  (a call such as copy.deepcopy(..) / a constructor, the innermost loop's own
+  element, or a local assigned in the innermost loop body).
+  """
+  add = ss.methods.get('add')
+  if add is None:
+    raise AnalysisError('SearchSpace.add not found')
+  p0 = add.params[1] if len(add.params) > 1 else None
+  mutates = any(isinstance(t, ast.Attribute) and isinstance(t.value, ast.Name) and t.value.id == p0
+                for n in ast.walk(add.node) if isinstance(n, ast.Assign) for t in n.targets)
+  if not mutates:
+    ctx.info('R8: SearchSpace.add no longer writes to its argument; sharing would only alias')
+  sites = 0
+  for q in _R8_MODULES:
+    mi = ctx.index.need_module(q)
+    for c in ast.walk(mi.tree):
+      if not (isinstance(c, ast.Call) and isinstance(c.func, ast.Attribute) and c.func.attr == 'add'
+              and len(c.args) == 1 and not c.keywords):
+        continue
+      loops = [a for a in ancestors(c) if isinstance(a, (ast.For, ast.While))]
+      fn = next((a for a in ancestors(c) if isinstance(a, (ast.FunctionDef, ast.Lambda))), None)
+      if not loops or fn is None:
+        continue
+      inner = loops[0]
+      # loops outside the enclosing function do not count
+      arg = c.args[0]
+      sites += 1
+      inst = f'{q.rsplit(".", 1)[-1]}:{getattr(fn, "name", "lambda")}: {unparse(c, 60)}'
+      if isinstance(arg, ast.Call):
+        ctx.ok('R8', inst, c, 'argument is a fresh object per call')
+        continue
+      if not isinstance(arg, ast.Name):
+        ctx.ok('R8', inst, c, 'argument is not a plain local (element/attribute access)')
+        continue
+      tnames = {n.id for n in ast.walk(inner.target) if isinstance(n, ast.Name)} if isinstance(inner, ast.For) else set()
+      assigned_inside = any(isinstance(n, ast.Assign) and any(isinstance(t, ast.Name) and t.id == arg.id for t in n.targets)
+                            for st in inner.body for n in ast.walk(st))
+      outer_targets = set()
+      for l in loops[1:]:
+        if isinstance(l, ast.For):
+          outer_targets |= {n.id for n in ast.walk(l.target) if isinstance(n, ast.Name)}
+      invariant = arg.id not in tnames and not assigned_inside
+      ctx.check(not invariant, 'R8', inst, c,
+                'argument is the innermost loop element / assigned in the innermost loop body',
+                f'`{arg.id}` is the same object on every iteration of the innermost loop: it is stored by reference in several '
+                'subspaces and SearchSpace.add overwrites its matching parent values each time (all copies end up active for the '
+                'last parent value only; later edits of one subspace change the others)',
+                construct=f'{getattr(fn, "name", "lambda")}:add({arg.id})', func=q)
+  if sites < 4:
+    raise AnalysisError(f'R8: only {sites} `.add(x)` sites inside loops found (4 confirmed by hand)')
 
 
 def r1_factory(ctx, mod, pc) -> None:
